@@ -172,10 +172,15 @@ def _add_zids(zdir: Path, page: Page) -> None:
             _LOGGER.debug("Found new zorg note", zorg_note=note)
             zid = zid_manager.get_next(note.create_date)
             note.zid = zid
-            old_body = note.body.lstrip()
-            if zdt.is_long_date_spec(old_body.split(" ")[0]):
-                old_body = " ".join(old_body.split(" ")[1:])
-            note.body = f"{zid} {old_body}"
+            # Only the first line is searched for a leading YYYY-MM-DD create
+            # date (it may be the only word on that line).
+            first_line, newline, other_lines = note.body.lstrip().partition(
+                "\n"
+            )
+            first_words = first_line.split(" ")
+            if zdt.is_long_date_spec(first_words[0]):
+                first_line = " ".join(first_words[1:])
+            note.body = f"{zid} {first_line}{newline}{other_lines}"
             new_notes.append(note)
     if new_notes:
         page.events.append(
